@@ -452,9 +452,39 @@ def _find(m, st, callee, args, t):
     return m.world.str_find(m, st, _content(m, st, args[0]), args[1])
 
 
-@model("core::str::traits::<impl core::ops::index::Index<I> for str>::index")
+@model("core::str::traits::<impl core::ops::index::Index<I> for str>::index", "<alloc::string::String as core::ops::index::Index<I>>::index")
 def _str_index(m, st, callee, args, t):
     return m.world.str_slice(m, st, _content(m, st, args[0]), args[1], callee)
+
+
+@model("core::str::<impl str>::contains")
+def _str_contains(m, st, callee, args, t):
+    h = getattr(m.world, "str_contains", None)
+    if h is None:
+        return None
+    return h(m, st, _content(m, st, args[0]), args[1])
+
+
+@model("alloc::str::<impl str>::replace")
+def _str_replace(m, st, callee, args, t):
+    h = getattr(m.world, "str_replace", None)
+    if h is None:
+        return None
+    return h(m, st, _content(m, st, args[0]), args[1], args[2])
+
+
+@model("alloc::string::String::replace_range")
+def _replace_range(m, st, callee, args, t):
+    """s.replace_range(range, with): the world decides what the string is afterwards."""
+    h = getattr(m.world, "replace_range", None)
+    if h is None or not isinstance(args[0], Ref):
+        return None
+    r, _v = _innermost_ref(m, st, args[0])
+    new = h(m, st, _content(m, st, args[0]), args[1], _content(m, st, args[2]), callee)
+    if new is None:
+        return None
+    m.store(st, r.loc, new)
+    return UNIT
 
 
 # ------------------------------------------------------------------------------- closures / fn values
@@ -985,8 +1015,19 @@ def _known_iter(m, st, v):
     return isinstance(v, Opq) and v.kind in ITER_KINDS
 
 
+def _char_source(m, st, v):
+    """Something String::extend knows how to drain: a known iterator or a flat_map over one."""
+    if _known_iter(m, st, v):
+        return True
+    v = deref_all(m, st, v)
+    return isinstance(v, Opq) and v.kind == "flat_map"
+
+
 @model("<alloc::string::String as core::iter::traits::collect::Extend<char>>::extend")
 def _string_extend(m, st, callee, args, t):
+    it = deref_all(m, st, args[1])
+    if isinstance(it, Opq) and it.kind == "flat_map":
+        return (INLINE, m.prog.bodies["pv::synth::string_extend_flat_map"], [args[0], it.data[0], it.data[1]], None)
     if not _known_iter(m, st, args[1]):
         return None
     return (INLINE, m.prog.bodies["pv::synth::string_extend_chars"], [args[0], args[1]], None)
@@ -1001,7 +1042,7 @@ def _for_each(m, st, callee, args, t):
 
 @model("<alloc::string::String as core::iter::traits::collect::FromIterator<char>>::from_iter")
 def _string_from_iter(m, st, callee, args, t):
-    if not _known_iter(m, st, args[0]):
+    if not _char_source(m, st, args[0]):
         return None
     return (INLINE, m.prog.bodies["pv::synth::string_from_chars"], [args[0]], None)
 
@@ -1012,9 +1053,16 @@ def _collect(m, st, callee, args, t):
     dty = fr.body.locals[t["dest"]["l"]]["ty"] if not t["dest"]["p"] else "?"
     if dty.startswith("core::result::Result<alloc::string::String,") and _known_iter(m, st, args[0]):
         return (INLINE, m.prog.bodies["pv::synth::result_string_from_results"], [args[0]], None)
-    if dty == "alloc::string::String" and _known_iter(m, st, args[0]):
+    if dty == "alloc::string::String" and _char_source(m, st, args[0]):
         return (INLINE, m.prog.bodies["pv::synth::string_from_chars"], [args[0]], None)
     return None
+
+
+@model("core::iter::traits::iterator::Iterator::flat_map")
+def _flat_map(m, st, callee, args, t):
+    if not _known_iter(m, st, args[0]):
+        return None
+    return Opq("flat_map", (args[0], args[1]))
 
 
 @model("core::iter::traits::iterator::Iterator::by_ref")
